@@ -40,6 +40,7 @@ def run(ctx):
     stats = collections.Counter()
     samples = []
     model_lines, model_expect = [], []
+    distinct = set()
     import pvl.pvl_validate as PV
     shared = {"PDS3": PV.dialects["PDS3"]["parser"], "ODL": PV.dialects["ODL"]["parser"],
               "PVL": PV.dialects["PVL"]["parser"], "ISIS": PV.dialects["ISIS"]["parser"],
@@ -52,6 +53,8 @@ def run(ctx):
             r_shared = io.real_parse(inst, t, 3.0)
             r_fresh = io.real_parse(io.make_parser(cfg), t, 3.0)
             ncalls += 1
+            if i > 0:
+                distinct.add(("parse", cfg, tuple(texts[:i + 1])))
             stats[cfg + ":" + pf.outcome_class(r_fresh)] += 1
             if r_shared != r_fresh and bad is None:
                 bad = {"what": "call %d on a reused %s parser instance differs from a fresh instance "
@@ -80,6 +83,7 @@ def run(ctx):
             a = dump(inst, m)
             b = dump(encio.make_encoder(enc, cfg), m2)
             ncalls += 1
+            distinct.add(("enc", enc, repr(a)))
             stats[enc + ":enc:" + a[0]] += 1
             # sets may iterate differently in the rebuilt copy: compare through a reload when sets are present
             if a != b and "{" not in (a[1] if a[0] == "ok" else "") and bad is None:
@@ -96,6 +100,7 @@ def run(ctx):
                     return type(e).__name__
             a, b = dec(d), dec(io.make_decoder(name)[1])
             ncalls += 1
+            distinct.add(("dec", name, lit))
             if a != b and bad is None:
                 bad = {"what": "decoder instance %s gives %s after earlier calls, a fresh one %s" % (name, a, b), "text": lit}
     if os.path.exists(drv.exe):
@@ -111,8 +116,8 @@ def run(ctx):
         core.violation(ctx, "correspondence", corr, False)
     elif not lean["ok"]:
         core.violation(ctx, "proof", {"what": "C16 proof obligations no longer check", "broken": lean["problems"]}, False)
-    cov = {"evaluations": ncalls, "distinct_nontrivial": ncalls,
-           "rule": "%d histories of 2..8 texts (well-formed, damaged, with missing values, fixed failing ones) pushed "
+    cov = {"evaluations": ncalls, "distinct_nontrivial": len(distinct),
+           "rule": "non-trivial = distinct (configuration, history prefix of >= 2 calls), distinct encoder outcomes, distinct decoder literals; %d histories of 2..8 texts (well-formed, damaged, with missing values, fixed failing ones) pushed "
                    "through one parser instance per configuration - every fourth history through the module-level "
                    "instances of pvl_validate.dialects - each call compared with a fresh instance (module, errors, "
                    "module.errors, exception attributes); %d histories of 2..5 modules through one encoder instance; "
